@@ -14,9 +14,13 @@ THEOREMS = ["QExPy.C07_poly_model", "QExPy.C07_lin", "QExPy.C07_quad", "QExPy.C0
             "QExPy.C01_quadratic_form", "QExPy.C03_diff_correct"]
 RULE = ("the C06 fits on the whole data set (every pre-set model, polynomial degrees 1-5, three user "
         "models, every sigma pattern incl. sigma_y with exact zeros, every data-passing form, 60 % "
-        "rescaled to other units by 1e-12..1e12, nearly uncorrelated parameters), 4 evaluation "
-        "points each, evaluated "
-        "as scalars, as a list and as an array; fit_function value/uncertainty, residuals (value "
+        "rescaled to other units by 1e-12..1e12, nearly uncorrelated parameters, offset abscissae, "
+        "closed-form fits with parguess, fits made through Plot.fit), 4 evaluation points each plus "
+        "the smallest and largest abscissa of the data, evaluated as scalars (float, numpy float, "
+        "int), as a list and as an array, BEFORE AND AFTER a history (a returned value switched to "
+        "Monte Carlo and read, the result drawn on a plot and saved, the global method switched, "
+        "re-reads) after which chi-squared, residuals, parameters, correlations and the printed "
+        "result must also read as before; fit_function value/uncertainty, residuals (value "
         "and uncertainty), chi-squared, registered correlations and the matrix parsed from "
         "str(result) (3 decimals and 17 digits) vs the Lean FitResult model run on the implementation's own parameters and "
         "covariance (tolerance: FB running error bound); non-trivial = >= 2 parameters and a "
@@ -95,6 +99,9 @@ def gen_cases(ctx, n):
     while len(cases) < n:
         if ctx.rng.random() < 0.03:
             cases.append(G.gen_centred(ctx.rng))
+            continue
+        if ctx.rng.random() < 0.05:
+            cases.append(C6.offset_case(ctx.rng, want_range=False))
             continue
         if ctx.rng.random() < 0.06:
             cases.append(G.gen_case(ctx.rng, family=ctx.rng.choice(fams[3:] + ("custom:growth",)),
